@@ -84,7 +84,7 @@ pub fn random_path(rng: &mut Rng, class: PathClass) -> String {
         }
         PathClass::Awkward => {
             if rng.chance(1, 6) {
-                return rng.pick(&gen::PLACEHOLDERS).to_string();
+                return gen::placeholder(rng);
             }
             if rng.chance(1, 8) {
                 let mut s = String::from("/");
